@@ -11,15 +11,74 @@ RULE = ('case = (solver, cost, monitor kinds, termination, program of 3-11 API o
 ASSUMPTIONS = ['monitors are initially empty; SetGenerationMonitor is exercised with new=False (history kept)',
                'costs are finite (a cost returning inf is run as a separate class for DE2\'s documented counting shortcut)',
                'in-process map only']
-CLASSES = {'programs': {'quick': 3200, 'thorough': 24000}, 'de2_inf_cost': {'quick': 96, 'thorough': 900}}
+CLASSES = {'programs': {'quick': 3200, 'thorough': 24000}, 'de2_inf_cost': {'quick': 96, 'thorough': 900}, 'solve_through_collapse': {'quick': 160, 'thorough': 2400}}
 MIN_EVENTS = {'quick': {'assert:c04': 15000, 'iterations': 1500, 'api_calls': 2000}}
 CASE_TIMEOUT = 120
+
+
+def run_collapse(rng, obs):
+    """one Solve(callback=...) whose termination holds dimensional-collapse conditions: Solve applies each collapse and carries on, and the
+    bookkeeping must carry on with it - one callback per iteration with the current best, counters equal to the real counts"""
+    import mystic.termination as mt
+    from mystic.solvers import NelderMeadSimplexSolver, PowellDirectionalSolver, DifferentialEvolutionSolver
+    from mystic.monitors import Monitor
+    from .. import solverkit as K
+    dim = rng.randint(2, 4)
+    kind = rng.choice(['nm', 'nm', 'powell', 'de'])
+    spec = rng.choice([['flat', [round(rng.uniform(-1, 1), 2) for _ in range(dim)], rng.randint(1, dim - 1)],
+                       ['tied', [round(rng.uniform(-1, 1), 2) for _ in range(dim)]]])
+    probe = K.CostProbe(K.make_cost(spec))
+    s = {'nm': NelderMeadSimplexSolver, 'powell': PowellDirectionalSolver}.get(kind)
+    s = s(dim) if s else DifferentialEvolutionSolver(dim, 3 * dim)
+    if kind == 'de': s.SetRandomInitialPoints([-2.0] * dim, [2.0] * dim)
+    else: s.SetInitialPoints([round(rng.uniform(-2, 2), 2) for _ in range(dim)])
+    G = rng.choice([40, 80])
+    s.SetEvaluationLimits(G, 10 ** 6)
+    em = Monitor(); s.SetEvaluationMonitor(em)
+    gens = rng.choice([2, 3, 5]); tol = rng.choice([1e-3, 1e-2, 0.1])
+    s.SetTermination(mt.Or(mt.ChangeOverGeneration(1e-10, 40), mt.CollapseAt(None, tolerance=tol, generations=gens), mt.CollapseAs(False, tolerance=tol, generations=gens)))
+    obs.desc = {'solver': kind, 'dim': dim, 'cost': spec, 'window': gens, 'tol': tol, 'G': G}
+    cb = []
+    ncollapse = [0]
+    real_collapse = s.Collapse
+    def Collapse(*a, **kw):
+        r = real_collapse(*a, **kw)
+        if r: ncollapse[0] += 1
+        return r
+    s.Collapse = Collapse
+    real_step = s.Step
+    iterating = [0]; after = [0]
+    def Step(*a, **kw):
+        n0, c0, g0 = probe.n, len(cb), s.generations
+        msg = real_step(*a, **kw)
+        if probe.n > n0 or s.generations > g0 or len(cb) > c0:
+            iterating[0] += 1
+            if ncollapse[0]: after[0] += 1
+            obs.check(len(cb) - c0 == 1, 'c04:callback invoked exactly once per iteration', observed=len(cb) - c0, step=iterating[0], solver=kind, collapses_so_far=ncollapse[0])
+            if len(cb) > c0:
+                best = [float(v) for v in np.ravel(s.bestSolution)]
+                obs.check(cb[-1] == best, 'c04:callback receives the current best', got=cb[-1], best=best, step=iterating[0], solver=kind, collapses_so_far=ncollapse[0])
+        if iterating[0] > 20 * (G + 2): raise RuntimeError('no progress')
+        return msg
+    s.Step = Step
+    s.Solve(probe, disp=0, callback=lambda x: cb.append([float(v) for v in np.ravel(x)]))
+    obs.check(int(s.evaluations) == probe.n, 'c04:evaluation counter equals the number of real cost calls', observed=int(s.evaluations), expected=probe.n, solver=kind,
+              inf_returns=0, evalmon_kind='plain', after='Solve through %d collapse(s)' % ncollapse[0])
+    obs.check(len(em) == probe.n, 'c04:evaluation monitor holds exactly the real (x, cost) pairs in call order', observed_len=len(em), expected_len=probe.n, swapped_while_live=False,
+              after='Solve through %d collapse(s)' % ncollapse[0], solver=kind)
+    obs.check(int(s.generations) == max(0, iterating[0] - 1), 'c04:generation counter equals the number of completed iterations', observed=int(s.generations),
+              expected=max(0, iterating[0] - 1), powell=kind == 'powell', after='Solve through %d collapse(s)' % ncollapse[0], solver=kind)
+    obs.event('iterations', iterating[0]); obs.event('api_calls', 1); obs.event('collapses_applied', ncollapse[0]); obs.event('iterations_after_a_collapse', after[0])
+    obs.nontrivial = ncollapse[0] >= 1 and after[0] >= 3
+    obs.notes = {'collapses': ncollapse[0], 'iterations': iterating[0], 'after_collapse': after[0]}
 
 
 def run_case(cls, idx, rng, obs):
     import warnings
     warnings.simplefilter('ignore')
     np.seterr(all='ignore')
+    if cls == 'solve_through_collapse':
+        return run_collapse(rng, obs)
     cfg = A.gen_program(rng, 'c04')
     if cls == 'de2_inf_cost':
         # DE2 without an evaluation monitor infers its evaluation count from the trial energies: a cost that legitimately
